@@ -21,7 +21,46 @@ def run(prog, R):
         R.ob("ANCHOR", "resolve_file_path", False)
     else:
         b = prog.body(rf[0])
-        ps = SymExec(prog, b, max_visits=1).paths()
+        # the combinator spelling of the same search is brought to the loop's shape: `it.find_map(f)` is "advance `it`,
+        # then f(element) is Some (first hit) | the iterator is exhausted"; `opt.and_then(g)` / `opt.unwrap_or(d)` branch
+        # on the variant of `opt` (g is looked into)
+        AND_THEN = set()
+        for k_ in [rf[0]] + [k2 for k2 in prog.bodies if k2.startswith(rf[0] + "::{closure")]:
+            for _, t_ in prog.body(k_).calls():
+                if (prog.body(k_).callee_of(t_) or "").endswith("Option::and_then"):
+                    for ty_ in t_.get("argtys", []):
+                        if isinstance(ty_, dict) and "closure" in ty_:
+                            AND_THEN.add(norm(ty_["closure"]))
+
+        def _comb(se_, st, t, cal, args, site):
+            if cal.endswith("::find_map") and len(args) == 2:
+                nx = ("call", "<find_map as std::iter::Iterator>::next", (args[0],), site, False)
+                el = ("field", nx, 0)
+                hit = ("call", "{closure}::call", (args[1], ("tuple", (el,))), site, False)
+                some = (("switch", ("discr", nx), ("eq", 1), "isize", site), ("switch", ("discr", hit), ("eq", 1), "isize", site))
+                none = (("switch", ("discr", nx), ("eq", 0), "isize", site),)
+                return [(some, hit, False), (none, ("adt", "std::option::Option::None", ()), False)]
+            if cal.endswith("Option::unwrap_or") and len(args) == 2:
+                a0 = deep_strip(args[0])
+                if isinstance(a0, tuple) and a0[0] == "adt" and a0[1].endswith("Option::None"):
+                    return [((), args[1], False)]
+                if isinstance(a0, tuple) and a0[0] == "call" and a0[1] == "{closure}::call":
+                    return [((), a0, False)]          # the first hit itself (its Some-ness is already on the path)
+                d = ("discr", args[0])
+                return [((("switch", d, ("eq", 1), "isize", site),), ("field", args[0], 0), False), ((("switch", d, ("eq", 0), "isize", site),), args[1], False)]
+            if cal.endswith("Option::and_then") and len(args) == 2:
+                d = ("discr", args[0])
+                cl_ = deep_strip(args[1])
+                outs = [((("switch", d, ("eq", 0), "isize", site),), ("adt", "std::option::Option::None", ()), False)]
+                if isinstance(cl_, tuple) and cl_[0] == "closure" and prog.body(cl_[1]) is not None:
+                    sub = SymExec(prog, prog.body(cl_[1]), max_visits=1, call_model=_comb, depth=se_.depth + 1, site_prefix=site)
+                    for q in sub.paths({1: cl_, 2: ("field", args[0], 0)}):
+                        outs.append(((("switch", d, ("eq", 1), "isize", site),) + tuple(q.conds), q.env.get(0), "__diverged__" in q.env))
+                    return outs
+                return None
+            return None
+        uses_comb = any((prog.body(k_).callee_of(t_) or "").endswith(("::find_map", "Option::and_then")) for k_ in [rf[0]] + list(AND_THEN) for _, t_ in prog.body(k_).calls())
+        ps = SymExec(prog, b, max_visits=1, call_model=_comb if uses_comb else None).paths()
         rows = []
         for p in ps:
             cs = conds_of(p)
@@ -32,8 +71,18 @@ def run(prog, R):
             hit = [c for t, c in cs if show(t).startswith("discr({closure") or ("closure" in show(t) and show(t).startswith("discr(") and "Iterator>::next" in show(t) and "resolve_file_path::{closure" in show(t))]
             ret = show(deep_strip(p.env.get(0))) if "__cut__" not in p.env and "__diverged__" not in p.env else None
             rows.append((absol, lst, env, nxt, hit, ret, "__cut__" in p.env))
+            # the outcome depends on nothing else (e.g. not on whether the literal happens to name a file relative to
+            # the working directory)
+            known = lambda s_: s_.startswith("is_absolute(") or s_ == "discr(search_path_list)" or s_.startswith("discr(get_file") or (s_.startswith("discr(") and ("Iterator>::next" in s_ or "{closure" in s_))
+            other = sorted({show(t)[:70] for t, c in cs if not known(show(t))})
+            if other and "__diverged__" not in p.env:
+                rows[-1] = rows[-1] + (other,)
         ok = True
         det = []
+        extra_tests = sorted({o for r_ in rows if len(r_) > 7 for o in r_[7]})
+        R.ob("C18.1-resolution-order", "resolution depends only on absoluteness, the list (or QASM3_PATH) and the directory probes", not extra_tests, b.at,
+             "no other test on any path" if not extra_tests else f"the result also depends on {extra_tests}: a path is returned unexpanded (or expanded differently) for a reason outside the documented order, e.g. a file of that name in the working directory wins over the search list")
+        rows = [r_[:7] for r_ in rows]
         for absol, lst, env, nxt, hit, ret, cut in rows:
             if cut:
                 continue
@@ -63,7 +112,10 @@ def run(prog, R):
         R.ob("C18.1-resolution-order", "path table of resolve_file_path", ok and need <= set(det), b.at, f"rows {sorted(set(det))}")
         nexts = sorted(set(norm(t_.get("resolved") or "") for _, t_ in b.calls() if (t_.get("resolved") or "").endswith("::next")))
         adaptors = sorted(set((b.callee_of(t_) or "").split("::")[-1] for _, t_ in b.calls() if (b.callee_of(t_) or "").startswith(("std::iter::Iterator::", "core::iter::"))))
-        ok_it = all(n_.startswith(("<std::slice::Iter", "<std::vec::IntoIter")) for n_ in nexts) and len(nexts) == 2 and not adaptors
+        fam_ = [rf[0]] + sorted(AND_THEN)
+        adaptors = sorted(set((prog.body(k_).callee_of(t_) or "").split("::")[-1] for k_ in fam_ for _, t_ in prog.body(k_).calls() if (prog.body(k_).callee_of(t_) or "").startswith(("std::iter::Iterator::", "core::iter::"))))
+        nfm_ = sum(1 for k_ in fam_ for _, t_ in prog.body(k_).calls() if (prog.body(k_).callee_of(t_) or "").endswith("::find_map"))
+        ok_it = all(n_.startswith(("<std::slice::Iter", "<std::vec::IntoIter")) for n_ in nexts) and len(nexts) + nfm_ == 2 and not [a_ for a_ in adaptors if a_ != "find_map"]
         R.ob("C18.1-resolution-order", "directories are tried in list order", ok_it, b.at, f"iterators {nexts}; adaptors {adaptors}")
         cl = prog.body(rf[0] + "::{closure#0}")
         if cl:
@@ -182,6 +234,12 @@ def run(prog, R):
                         badt.append([show(deep_strip(c[1][0]))[:80] for c in pc] or "not parsed")
             R.ob("C18.2-lock-step", "the text parsed for an included file is the text read from it", nt >= 1 and not badt, b.at,
                  f"{nt} path(s) with a successful read" if nt >= 1 and not badt else f"a path with a successful read parses {badt[:2]} instead of the file's text, without an include error: the statements of that include silently vanish from the program")
+            # a file counts as unreadable exactly when reading it failed: the Result whose Ok/Err is tested is the value of
+            # fs::read_to_string(full_path) itself (no and_then / map_err that manufactures an error for a readable file)
+            tested = sorted({show(t)[:120] for p in ps for t, c in conds_of(p) if isinstance(t, tuple) and t[0] == "discr" and "read_to_string" in show(t)})
+            okrd = bool(tested) and all(t_.startswith("discr(read_to_string(") or t_.startswith("discr(std::fs::read_to_string(") for t_ in tested)
+            R.ob("C18.3-failure-is-diagnostic", "the tested read result is fs::read_to_string(full_path) itself", okrd, b.at, f"{tested}" if okrd else
+                 f"parse_one_included branches on {tested}: an error can be manufactured for a file that was read successfully (e.g. a second include of the same file reported as unreadable)")
             # C18.3: read error -> IncludeError with the io kind
             errp = [p for p in ps if any(c[0].endswith("io::Error::kind") or c[0].endswith("Error::kind") for c in p.calls)]
             ok3 = bool(errp) and all("IncludeError" in show(deep_strip(p.env.get(0))) for p in errp) and all(not any("parse_source_and_includes" in c[0] for c in p.calls) for p in errp)
